@@ -511,6 +511,10 @@ var emitPool = [][]string{
 // fancyName joins two halves of a file name with characters that file systems accept and that URL escaping,
 // label syntax and shells treat specially.
 func fancyName(t *rapid.T, a, b string) string {
+	if rapid.IntRange(0, 4).Draw(t, "dotdir") == 4 {
+		// inside a directory whose name starts with a dot (.github/ci.yml): record names then start with a dot too
+		a = rapid.SampledFrom([]string{".hid/", ".ci/", ".a/.b/"}).Draw(t, "dotdirname") + a
+	}
 	return a + rapid.SampledFrom([]string{"+", " ", "%2B", "é", "&=", ",", "~", "+", "%", "$", "++", " + "}).Draw(t, "namesep") + b
 }
 
